@@ -1111,6 +1111,114 @@ fn real_server_loop(res: &mut RunResult) {
     hk::set_thread_pid(None);
 }
 
+/// T2 for the grace timer of the SERVER loop: the real `acquire_authority_lock_with_recovery` on an actor thread, one grant per
+/// `auth.*` point; the harness plays the other processes while the loop is parked and lets REAL time pass (a sleep of 1.1 s
+/// with the loop parked: "more than the grace period has passed" holds whatever the load).  Two schedules in which the loop
+/// has seen an unreadable lock more than a second ago, then SEEN that lock replaced (readable record / no lock), and then
+/// reads the fresh, still-empty lock of a live starter: it must not call the corrupt cleanup on first sight.
+fn real_server_timer(res: &mut RunResult) {
+    for scenario in ["readable_then_fresh_starter", "absent_then_fresh_starter"] {
+        let (_sc, data, ws) = fresh_store(&LockF::Half(DEAD), &MetaF::Absent);
+        hk::set_liveness(101, Some(PidLiveness::Alive));
+        hk::set_liveness(102, Some(PidLiveness::Alive));
+        hk::set_liveness(DEAD as u32, Some(PidLiveness::Dead));
+        let ctl = Arc::new(Ctl { mu: Mutex::new(vec![View::default(); 1]), cv: Condvar::new() });
+        let ret: Arc<Mutex<Option<String>>> = Arc::new(Mutex::new(None));
+        let (ctl2, ret2, data2, ws2) = (ctl.clone(), ret.clone(), data.clone(), ws.clone());
+        let h = std::thread::spawn(move || {
+            ACTOR.with(|a| a.set(Some(0)));
+            CTL.with(|cc| *cc.borrow_mut() = Some(ctl2.clone()));
+            hk::set_thread_pid(Some(101));
+            let r = std::panic::catch_unwind(std::panic::AssertUnwindSafe(|| {
+                park("start");
+                let rt = tokio::runtime::Builder::new_current_thread().enable_all().build().expect("tokio runtime");
+                let r = rt.block_on(ripd::verif::acquire_authority_lock_with_recovery(&data2, &ws2));
+                *ret2.lock().unwrap() = Some(match &r { Ok(_) => "Ok(guard)".to_string(), Err(e) => format!("Err({e})") });
+                std::mem::forget(r); // the process keeps its guard
+            }));
+            let mut g = ctl2.mu.lock().unwrap();
+            g[0].done = true;
+            g[0].crashed = r.is_err();
+            ctl2.cv.notify_all();
+        });
+        let mut schedule: Vec<String> = vec![];
+        let mut polls = 0usize; // iterations of the loop started so far
+        let mut created_b: Option<Instant> = None;
+        let mut fired_after: Option<Duration> = None;
+        let mut in_stale = false;
+        ctl.settle(0);
+        for _ in 0..60 {
+            let v = ctl.view(0);
+            if v.done {
+                break;
+            }
+            let name = v.parked.unwrap_or("?");
+            match name {
+                "auth.acquire.before_create" => {
+                    polls += 1;
+                    in_stale = false;
+                    if scenario == "readable_then_fresh_starter" && polls == 2 {
+                        write_lock_file(&data, &LockF::Rec(DEAD), &ws);
+                        std::thread::sleep(Duration::from_millis(1100));
+                        schedule.push(format!("iteration 2: the dead starter's record ({DEAD}) is now in lock.json; 1100 ms pass"));
+                    }
+                    if polls == 3 {
+                        let _ = std::fs::remove_file(ripd::authority_lock_path(&data));
+                        write_lock_file(&data, &LockF::Half(102), &ws);
+                        created_b = Some(Instant::now());
+                        schedule.push("iteration 3: live starter 102 has just created lock.json (still empty)".into());
+                    }
+                    if polls == 5 {
+                        break;
+                    }
+                }
+                "auth.stale.before_exists" => in_stale = true,
+                "auth.read_lock" if !in_stale && scenario == "absent_then_fresh_starter" && polls == 2 => {
+                    let _ = std::fs::remove_file(ripd::authority_lock_path(&data));
+                    std::thread::sleep(Duration::from_millis(1100));
+                    schedule.push("iteration 2: the unreadable lock is removed (another contender's cleanup) under the loop's read; 1100 ms pass".into());
+                }
+                "auth.corrupt.before_exists" => {
+                    if let Some(t) = created_b {
+                        if fired_after.is_none() {
+                            fired_after = Some(t.elapsed());
+                        }
+                    }
+                }
+                _ => {}
+            }
+            schedule.push(format!("grant {name}"));
+            if !ctl.grant(0, Cmd::Go, 0, true) {
+                break;
+            }
+        }
+        let lock_after = data_lock(&data);
+        if !ctl.view(0).done {
+            ctl.grant(0, Cmd::Crash, 0, true);
+        }
+        let _ = h.join();
+        hk::set_thread_pid(None);
+        res.evaluations += 1;
+        res.oracle_checks += 1;
+        res.bump("kind=real_server_timer");
+        let returned = ret.lock().unwrap().clone();
+        match (created_b, fired_after) {
+            (Some(_), Some(d)) if d < Duration::from_millis(1000) => {
+                let class = "real_server_loop_cleans_invalid_lock_before_grace";
+                res.bump(&format!("finding={class}"));
+                res.oracle_violations.push(OracleViolation {
+                    case_id: -1,
+                    what: format!("{scenario}: the real server recovery loop called the corrupt-lock cleanup on the still-empty lock.json of LIVE starter 102 {} ms after that file was created (lock code afterwards {lock_after}): its 1 s timer was still running from the unreadable lock it had seen replaced in the meantime", d.as_millis()),
+                    class: class.into(),
+                    replay: json!({"real_loop": "server, one grant per auth.* point", "scenario": scenario, "leftover": "empty lock.json of dead starter 900, no meta.json", "schedule": schedule, "returned": returned}),
+                });
+            }
+            (None, _) => res.notes.push(format!("real_server_timer {scenario}: the loop returned ({returned:?}) before iteration 3 (2 s deadline on a slow machine?) — not judged")),
+            _ => {}
+        }
+    }
+}
+
 fn wait_child(child: &mut std::process::Child, secs: u64) -> Option<std::process::ExitStatus> {
     let end = Instant::now() + Duration::from_secs(secs);
     loop {
@@ -1901,6 +2009,7 @@ fn main() {
     // 7.-9. the real driver loops and the real shutdown path (wall-clock, a few seconds)
     unsafe { prctl(36 /* PR_SET_CHILD_SUBREAPER */, 1, 0, 0, 0) };
     real_server_loop(&mut res);
+    real_server_timer(&mut res);
     real_client_loop(&mut res);
     real_shutdown_path(&mut res);
     rip_kernel::verif::set_hook(None);
